@@ -225,6 +225,16 @@ Call(p, m, t) ==
               /\ dead' = (handler[p] = "return")
     /\ UNCHANGED <<classes, methods, defs, inst, fresh, handler, vps>>
 
+(* C15: under a checked policy a call with an argument whose dynamic class   *)
+(* is not registered is reported as an unknown class carrying that class;   *)
+(* no definition runs.  (Unchecked policies: undefined, never exercised.)   *)
+CallUnknown(p, m, t, c) ==
+    /\ ~dead /\ fresh[p] /\ inst[p].ok
+    /\ m \in DOMAIN inst[p].mvp /\ Len(t) = Len(inst[p].mvp[m])
+    /\ \E i \in DOMAIN t : t[i] \notin inst[p].cls /\ c = t[i]
+    /\ obs' = [k |-> "unknown", c |-> c]
+    /\ UNCHANGED <<classes, methods, defs, inst, fresh, handler, vps, dead>>
+
 (* what next refers to inside definition d of m, as of the last update *)
 NextOf(p, m, d) ==
     LET x == CHOOSE x \in inst[p].D[m] : x.d = d IN NextTarget(inst[p].anc, inst[p].D[m], x)
@@ -247,13 +257,33 @@ VpValid(h) ==
     /\ h.dyn \in inst[h.p].cls
     /\ (h.ind \/ h.epoch = inst[h.p].epoch)
 
-MakeVptr(p, id, dyn, oid, ind) ==
+(* st: the static class of the virtual_ptr (its template argument); route:  *)
+(* how it is built.  Legal only for a registered dynamic class acceptable    *)
+(* where st is expected; `final` (and make_virtual_shared, which builds the  *)
+(* object itself) asserts that the dynamic class IS the static class.       *)
+FinalRoutes == {"final", "sh_final", "mk"}
+MakeVptr(p, id, st, dyn, oid, ind, route) ==
     /\ ~dead /\ fresh[p] /\ inst[p].ok /\ dyn \in inst[p].cls
+    /\ st \in inst[p].anc[dyn]
+    /\ route \in FinalRoutes => dyn = st
     /\ id \notin DOMAIN vps
     /\ vps' = [x \in DOMAIN vps \cup {id} |->
                  IF x = id THEN [p |-> p, dyn |-> dyn, oid |-> oid, ind |-> ind, epoch |-> inst[p].epoch] ELSE vps[x]]
     /\ obs' = [k |-> "vptr", oid |-> oid]
     /\ UNCHANGED <<classes, methods, defs, inst, fresh, handler, dead>>
+
+(* checked policies (C15): an unregistered dynamic class is reported as an   *)
+(* unknown class carrying that class; final with another dynamic type as a   *)
+(* method-table error carrying the dynamic type.  Nothing is created.       *)
+MakeVptrUnknown(p, dyn) ==
+    /\ ~dead /\ fresh[p] /\ inst[p].ok /\ dyn \notin inst[p].cls
+    /\ obs' = [k |-> "unknown", c |-> dyn]
+    /\ UNCHANGED <<classes, methods, defs, inst, fresh, handler, vps, dead>>
+MakeVptrNotFinal(p, st, dyn, route) ==
+    /\ ~dead /\ fresh[p] /\ inst[p].ok
+    /\ route \in FinalRoutes /\ dyn # st
+    /\ obs' = [k |-> "mtable", c |-> dyn]
+    /\ UNCHANGED <<classes, methods, defs, inst, fresh, handler, vps, dead>>
 
 (* copy / move / converting construction / cast: same pointee, same validity *)
 DeriveVptr(id, from) ==
@@ -269,10 +299,22 @@ DropVptr(id) ==
     /\ Done
     /\ UNCHANGED <<classes, methods, defs, inst, fresh, handler, dead>>
 
+(* get(), operator* and operator-> give back the original object *)
+GetVptr(id) ==
+    /\ ~dead /\ id \in DOMAIN vps
+    /\ obs' = [k |-> "vget", oid |-> vps[id].oid]
+    /\ UNCHANGED <<classes, methods, defs, inst, fresh, handler, vps, dead>>
+
 (* a call whose virtual arguments are handles behaves like the call on the pointees *)
 VpCallLegal(p, m, hs) ==
     /\ \A i \in DOMAIN hs : hs[i] \in DOMAIN vps /\ vps[hs[i]].p = p /\ VpValid(vps[hs[i]])
     /\ CallLegal(p, m, [i \in DOMAIN hs |-> vps[hs[i]].dyn])
+VpCall(p, m, hs) ==
+    /\ VpCallLegal(p, m, hs)
+    /\ LET t == [i \in DOMAIN hs |-> vps[hs[i]].dyn]
+           o == CallOutcome(p, m, t) IN
+         obs' = [k |-> "vcall", o |-> o, oids |-> IF o >= 0 THEN [i \in DOMAIN hs |-> vps[hs[i]].oid] ELSE <<>>]
+    /\ UNCHANGED <<classes, methods, defs, inst, fresh, handler, vps, dead>>
 
 -----------------------------------------------------------------------------
 (***************************************************************************)
